@@ -23,6 +23,7 @@ EXPLANATION = (
     'symbols exactly as the plain jigg_xml branch does).  Offsets tiling, tree isomorphism and token normalisation are '
     'value-level and not decided.'
     ' The XML readers / writers hand on sentences and n-best trees in the order read (no sort / reverse / set); no default argument evaluates the language at import time; the Jigg writer is found by role and its id / position bookkeeping is accepted as counter, threaded parameter or per-tree counter.'
+    " Third round: token names for ccg2lambda (R15.5: normalize_token replaces all logic punctuation and prefixes '_'; normalize_tokens leaves nothing it wrote un-normalised) and no module-level table written by the tree builder modules (R15.6)."
 )
 TRUSTED = ['CPython ast', 'sa/pysym.py path walker', 'a line-based scan of the YAML templates for `rule:` values']
 
@@ -564,6 +565,96 @@ def r_ccg2lambda_vocab(repo, rep, R='R15.4'):
     return len(feeds)
 
 
+LOGIC_PUNCT = ['.', ',', '(', ')', '!', '-']
+NM = 'depccg/semantics/ccg2lambda/normalization.py'
+
+
+def r_token_names(repo, rep, R='R15.5'):
+    """token names handed to ccg2lambda's templates are identifiers: normalize_token replaces every logic punctuation
+    character and prefixes '_'; normalize_tokens leaves no base / surf attribute it wrote itself un-normalised."""
+    import re._parser as sre
+    from ..pysym import SymExec, path_values
+    nm = repo.module(NM)
+    fn = nm.get('normalize_token')
+    p = fn.args.args[0].arg
+    w = '%s:%s normalize_token' % (NM, fn.lineno)
+    vals = path_values(SymExec(fn).run())
+    ok_prefix = bool(vals)
+    chains = []
+    for conds, v in vals:
+        core = v
+        if v[0] == 'binop' and v[1] == '+' and v[2] == C('_'):
+            core = v[3]
+        elif v[0] == 'fstr' and len(v[1]) == 2 and isinstance(v[1][0], str) and v[1][0].startswith('_') and not any(ch in v[1][0] for ch in LOGIC_PUNCT) \
+                and isinstance(v[1][1], tuple):
+            core = v[1][1]
+        else:
+            # returned as is: only when it was seen to start with '_'
+            starts = ('call', A(core, 'startswith'), (C('_'),), ())
+            ok_prefix = ok_prefix and logic.implied([(c, pol_) for c, pol_ in conds], logic.formula(starts))
+        subs = []
+        t = core
+
+        def step(t):
+            """one rewriting step: re.sub(p, r, x) / re.compile(p).sub(r, x) / x.replace(a, b) -> (regex, replacement, x)"""
+            if t[0] != 'call':
+                return None
+            f, a = t[1], t[2]
+            if f in (A(N('re'), 'sub'), N('sub')) and len(a) >= 3 and a[0][0] == 'const' and a[1][0] == 'const':
+                return a[0][1], a[1][1], a[2]
+            if f[0] == 'attr' and f[2] == 'sub' and f[1][0] == 'call' and f[1][1] in (A(N('re'), 'compile'), N('compile')) and f[1][2] \
+                    and f[1][2][0][0] == 'const' and len(a) >= 2 and a[0][0] == 'const':
+                return f[1][2][0][1], a[0][1], a[1]
+            if f[0] == 'attr' and f[2] == 'replace' and len(a) == 2 and all(x[0] == 'const' and isinstance(x[1], str) for x in a):
+                return re.escape(a[0][1]), a[1][1], f[1]
+            return None
+        while step(t) is not None:
+            pat_, repl_, t = step(t)
+            subs.append((pat_, repl_))
+        chains.append((subs, t))
+    rep.check(ok_prefix, R, w, 'normalize_token:prefix', 'the result always starts with an underscore (added unless already there)',
+              'normalize_token can return a name without the leading underscore')
+    for subs, base in chains:
+        covered = {}
+        for pat, repl in subs:
+            try:
+                parsed = list(sre.parse(pat))
+            except Exception:
+                continue
+            if len(parsed) == 1 and str(parsed[0][0]) == 'LITERAL':
+                covered[chr(parsed[0][1])] = repl
+        missing = [ch for ch in LOGIC_PUNCT if ch not in covered]
+        dirty = sorted(ch for ch, repl in covered.items() if ch in LOGIC_PUNCT and any(x in repl for x in LOGIC_PUNCT))
+        rep.check(base == N(p) and not missing and not dirty, R, w, 'normalize_token:punctuation',
+                  'every occurrence of %s in the name is replaced by punctuation-free text' % ' '.join(LOGIC_PUNCT),
+                  'normalize_token leaves logic punctuation in names: not replaced %s, replaced by text that still contains punctuation %s' % (missing, dirty))
+    cm = repo.module(CT)
+    nt = cm.get('normalize_tokens')
+    w2 = '%s:%s normalize_tokens' % (CT, nt.lineno)
+    n_paths = 0
+    bad = []
+    for st, o in SymExec(nt, unroll=1).run():
+        if not any(e[0] == 'loop-enter' for e in st.events):
+            continue
+        n_paths += 1
+        for attr in ('base', 'surf'):
+            is_set = lambda e: e[0] == 'call' and e[1][1][0] == 'attr' and e[1][1][2] == 'set' and len(e[1][2]) == 2 and e[1][2][0] == C(attr)
+            normal = lambda e: is_set(e) and e[1][2][1][0] == 'call' and e[1][2][1][1] == N('normalize_token')
+            raw = [i for i, e in enumerate(st.events) if is_set(e) and not normal(e)]
+            if not raw:
+                continue
+            later = st.events[raw[-1] + 1:]
+            decided = any(normal(e) for e in later) or any(
+                e[0] == 'branch' and any(x == C(attr) for x in subterms(e[1])) for e in later)
+            if not decided:
+                bad.append('%s = %s' % (attr, show(st.events[raw[-1]][1][2][1])[:50]))
+    if not n_paths:
+        raise AnalysisError('%s: normalize_tokens has no path through its token loop' % CT)
+    rep.check(not bad, R, w2, 'normalize_tokens:final-write', 'whatever normalize_tokens writes into base / surf is normalised afterwards, or found to be a name already (%d paths)' % n_paths,
+              'normalize_tokens leaves a raw value in a token attribute: %s is the last write on a path, with no normalisation decision after it -- '
+              'the name reaches the templates with its punctuation and without the underscore' % sorted(set(bad)))
+
+
 def check(repo, rep, tier):
     from ..lints import r_import_time_language
     r_import_time_language(repo, rep, 'R15.4', repo.py_files('depccg/printer') + [RD])
@@ -579,4 +670,10 @@ def check(repo, rep, tier):
     r_jigg(repo, rep)
     r_ids(repo, rep)
     n = r_ccg2lambda_vocab(repo, rep)
+    rep.rule('R15.6', 'ccg2lambda rebuilds each tree from the document it is given: the tree builder keeps no table that outlives a call (span ids restart with every document)')
+    from ..lints import r_module_state
+    n_obj = r_module_state(repo, rep, 'R15.6', [SI, CT], 'span ids such as s0_sp0 restart with every document, so a table kept between calls answers with nodes of an earlier document')
+    rep.ok('R15.6', '%s, %s' % (SI, CT), 'no function of the tree builder modules writes to one of their %d module-level objects' % n_obj)
+    rep.rule('R15.5', 'token names for ccg2lambda: normalize_token replaces all logic punctuation and prefixes "_"; normalize_tokens leaves nothing it wrote un-normalised')
+    r_token_names(repo, rep)
     rep.floor('to_jigg_xml call sites in to_string', n, 3)
